@@ -121,6 +121,29 @@ def one_network(M, rec, rng, g, desc, built, tier):
                 rec.violation(f"{PROP}:non-finite output for finite admissible inputs ({label}) at {_where(desc, bad[0])}",
                               dict(case, nonfinite=bad[:5]))
     # 3. CasADi engine, both symbol types, engine's own symbols; compile at all levels
+    # 2b. compile with declared symbolic parameters (incl. a symbolic sampling time with flow outputs)
+    from vf import compilecases as CC
+
+    for st in ("SX", "MX"):
+        cand = CC.candidate_params(desc, pars)
+        keys = [("#", "T")] + rng.sample(cand, rng.randint(0, min(3, len(cand))))
+        keys = list(dict.fromkeys(keys))
+        case_p = dict(case0, pars=pars, engine=st, symbolic_parameters=[list(k_) for k_ in keys])
+        try:
+            cc = CC.CompileCase(M, rng, desc, pars, st, keys, {}, own_symbols=True)
+        except Exception as e:
+            _exc(rec, "step with symbolic parameters", st, e, case_p)
+            continue
+        for compact in (0, 1, 2):
+            mo = rng.random() < 0.7
+            try:
+                F = cc.compile(compact, mo)
+                rec.count("compilations_ok")
+                rec.seen("compile_modes", (st, compact, mo, "symbolic-parameters"))
+                if F.get_free():
+                    rec.violation(f"{PROP}:compiled function with declared parameters has free symbols ({st})", case_p)
+            except Exception as e:
+                _exc(rec, f"to_function(compact={compact},more_out={mo},symbolic parameters)", st, e, case_p)
     for st in ("SX", "MX"):
         eng = CE(st)
         opts = {o: True for o in OPTS if rng.random() < 0.25}
